@@ -76,7 +76,7 @@ def extract_optable(repo):
             if not single:
                 raise common.Broken("translator: operator mapping of Parser::%s not recognised" % fn)
             ops = {k: single.group(1) for k in kinds}
-        table.append((fn, [(k, ops.get(k, "?")) for k in kinds], m.group(3)))
+        table.append((fn, sorted((k, ops.get(k, "?")) for k in kinds), m.group(3)))
     # the non-binop levels: which function each one falls through to
     chain = []
     for fn, pat in [("expression", r"self\.(\w+)\(tokens\)"),
@@ -99,15 +99,30 @@ def extract_optable(repo):
     m = re.search(r"fn next_token_could_start_power_expression.*?matches!\(\s*self\.peek\(tokens\)\.kind,(.*?)\)\s*\}", src, re.S)
     if not m:
         raise common.Broken("translator: next_token_could_start_power_expression not recognised")
-    starts = re.findall(r"TokenKind::(\w+)", m.group(1))
-    return table, chain, starts
+    starts = sorted(re.findall(r"TokenKind::(\w+)", m.group(1)))
+    tsrc = open(os.path.join(repo, "numbat/src/tokenizer.rs")).read()
+    m = re.search(r"fn is_subscript_char.*?\(0x([0-9A-Fa-f]+)\.\.=0x([0-9A-Fa-f]+)\)\.contains", tsrc, re.S)
+    if not m:
+        raise common.Broken("translator: is_subscript_char range not recognised")
+    sub = (int(m.group(1), 16), int(m.group(2), 16))
+    kws = re.findall(r'm\.insert\("(\w+)", TokenKind::(\w+)\);', tsrc)
+    procs = re.findall(r"m\.insert\(ProcedureKind::(\w+)\.name\(\), TokenKind::(\w+)\);", tsrc)
+    asrc = open(os.path.join(repo, "numbat/src/ast.rs")).read()
+    for pk, tk in procs:
+        mm = re.search(r'ProcedureKind::%s => "(\w+)"' % pk, asrc)
+        if not mm:
+            raise common.Broken("translator: name of ProcedureKind::%s not found" % pk)
+        kws.append((mm.group(1), tk))
+    if len(kws) < 25:
+        raise common.Broken("translator: keyword table of the tokenizer not recognised")
+    return table, chain, starts, sub, sorted(kws)
 
 
 def write_optable(repo):
-    table, chain, starts = extract_optable(repo)
+    table, chain, starts, sub, kws = extract_optable(repo)
     q = common.coq_string
     lines = ["(* GENERATED by tools/props/c10.py from numbat/src/parser.rs — do not edit. *)",
-             "From Coq Require Import String List.", "Import ListNotations.", "Open Scope string_scope.", "",
+             "From Coq Require Import String List NArith.", "Import ListNotations.", "Open Scope string_scope.", "",
              "(* parse_binop call sites: function, [(token kind, operator)], next parser *)",
              "Definition binop_levels : list (string * list (string * string) * string) := ["]
     lines.append(";\n".join("  (%s, [%s], %s)" % (q(fn), "; ".join("(%s, %s)" % (q(k), q(o)) for k, o in ks), q(nx))
@@ -115,13 +130,18 @@ def write_optable(repo):
     lines += ["].", "", "(* which level each remaining function falls through to *)",
               "Definition fallthrough : list (string * string) := ["]
     lines.append(";\n".join("  (%s, %s)" % (q(a), q(b)) for a, b in chain))
-    lines += ["].", "", "Definition power_start_tokens : list string := [%s]." % "; ".join(q(s) for s in starts), ""]
+    lines += ["].", "", "Definition power_start_tokens : list string := [%s]." % "; ".join(q(s) for s in starts), "",
+              "(* tokenizer.rs is_subscript_char *)",
+              "Definition subscript_first : N := %d%%N." % sub[0], "Definition subscript_last : N := %d%%N." % sub[1], "",
+              "(* tokenizer.rs keyword map: spelling, token kind *)",
+              "Definition keywords : list (string * string) := [",
+              ";\n".join("  (%s, %s)" % (q(a), q(b)) for a, b in kws), "].", ""]
     text = "\n".join(lines)
     path = os.path.join(common.COQ, "theories", "Gen", "OpTable.v")
     os.makedirs(os.path.dirname(path), exist_ok=True)
     if not os.path.exists(path) or open(path).read() != text:
         open(path, "w").write(text)
-    return table, chain, starts
+    return table, chain, starts, sub, kws
 
 
 # ------------------------------------------------------------------ cases
